@@ -204,7 +204,7 @@ OnOpenDone(e) ==
             THEN V(e.same, e.same \o "_RowsUnchanged", e, [before |-> Get(g.lastrows, c, {}), after |-> rows]) ELSE {}
       \* C03: the opener's view contains every version whose commit had returned before its open began
       v6 == IF ~(Get(g.ackedAt, c, {}) \subseteq facts)
-            THEN V("C03", "C03_OpenSeesAcked", e, [missing |-> Get(g.ackedAt, c, {}) \ facts, versions |-> vers]) ELSE {}
+            THEN VAll({"C03", "C04", "C14"}, "_OpenSeesAcked", e, [missing |-> Get(g.ackedAt, c, {}) \ facts, versions |-> vers]) ELSE {}
       \* C03: a final open of the quiescent bucket contains every acknowledged commit
       v7 == IF Has(e, "tag") /\ e.tag = "final" /\ ~(FactsOfVersions(g.acked) \subseteq facts)
             THEN V("C03", "C03_EventuallyContained", e, [missing |-> FactsOfVersions(g.acked) \ facts, versions |-> vers]) ELSE {}
@@ -322,8 +322,8 @@ OnChanges(e) ==
      ELSE IF ~((F \cup (IF e.has_to THEN T ELSE {})) \subseteq (g.cur \cup g.mrg))
      THEN [g2 |-> g, v |-> V("C12", "C12_MissingVersionFails", e, [from |-> F, to |-> T, gone |-> (F \cup T) \ (g.cur \cup g.mrg), result |-> Rs])]
      ELSE [g2 |-> g,
-           v |-> (IF ~(Rs \subseteq B) THEN V("C12", "C12_Sound", e, [from |-> F, to |-> T, extra |-> Rs \ B, result |-> Rs]) ELSE {})
-                 \cup (IF ~((B \ A) \subseteq Rs) THEN V("C12", "C12_Complete", e, [from |-> F, to |-> T, missing |-> (B \ A) \ Rs, result |-> Rs]) ELSE {})
+           v |-> (IF ~(Rs \subseteq B) THEN VAll({"C12", "C14"}, "_ChangesSound", e, [from |-> F, to |-> T, extra |-> Rs \ B, result |-> Rs]) ELSE {})
+                 \cup (IF ~((B \ A) \subseteq Rs) THEN VAll({"C12", "C14"}, "_ChangesComplete", e, [from |-> F, to |-> T, missing |-> (B \ A) \ Rs, result |-> Rs]) ELSE {})
                  \cup (IF F = {} /\ e.has_to /\ T \in DOMAIN g.taken /\ Rs # g.taken[T]
                        THEN V("C11", "C11_SameRowsLater", e, [version |-> T, then |-> g.taken[T], now |-> Rs, via |-> "s3db_changes"]) ELSE {})]
 
